@@ -19,8 +19,8 @@ from mc.worlds import kit
 
 LEVEL = "model_checking"
 INTERVALS = {"1min": 1, "2min": 2, "5min": 5, "1h": 60}
-MIXES = ["uni(q0)", "uni+aave", "aave(path)", "squeeth(ne)", "gmx1", "gmx2(mild,small)", "deribit", "deribit+uni"]
-HOOKS = ["initialize", "before_bar", "trigger", "on_bar", "after_bar"]
+MIXES = ["uni(q0)", "uni+aave", "aave(path)", "squeeth(ne)", "gmx1", "gmx2(mild,small)", "deribit", "deribit+uni", "deribit(many)+uni"]
+HOOKS = ["initialize", "before_bar", "trigger", "on_bar", "after_bar"]  # plus "notify" in dedicated two-operation scripts
 
 
 def get_world(name):
@@ -71,6 +71,7 @@ def run_traced(world, script, interval):
     ctx.index = bars_index = __import__("pandas").DatetimeIndex(bars)
     trace = []
     outcomes = []
+    fired_in_notify = set()
     state = {"act": None}
 
     def ev(kind, *info):
@@ -116,6 +117,11 @@ def run_traced(world, script, interval):
 
         def notify(self, action):
             ev("notify", id(action), action.timestamp)
+            # a strategy may operate from inside its notification hook (e.g. re-buy when told about a sale): scripted once per placement
+            for b, hook, label in script:
+                if hook == "notify" and 0 <= b < len(bars) and action.timestamp == bars[b].to_pydatetime() and (b, label) not in fired_in_notify:
+                    fired_in_notify.add((b, label))
+                    do_ops("notify", b, None)
 
         def finalize(self):
             ev("finalize")
@@ -268,7 +274,9 @@ def judge(part, mix, interval, script):
         n_bar_actions = (trace[pos - 1][-2] if pos > 0 else 0) - acts_seen
         n_bar_actions = len([a for a in act.actions[acts_seen:] if a.timestamp == t])
         # actions of this bar = all recorded up to now (nothing can be recorded during notify)
-        now_actions = trace[pos - 1][-2]
+        # every action recorded up to the end of the bar belongs to it (an operation made inside notify() is recorded after that notify event began,
+        # so the count is taken from the next event — nothing can be recorded between the end of the notifications and the next bar's first event)
+        now_actions = peek()[-2] if peek()[0] != "<end>" else len(act.actions)
         if k != now_actions - acts_seen:
             return bad("notify|missed", "an accepted operation's action was not delivered to notify at the end of its bar", {"bar": i, "delivered": k,
                                                                                                                    "recorded": now_actions - acts_seen})
@@ -348,7 +356,9 @@ def cases(thorough):
                 for s1, s2 in itertools.combinations(singles[:: 2], 2):
                     if n_raw <= 60:
                         out.append((mix, interval, [s1, s2]))
-            else:
+            out.append((mix, interval, [(min(1, n_bars - 1), "on_bar", good[0]), (min(1, n_bars - 1), "notify", good[-1])]))
+            out.append((mix, interval, [(0, "after_bar", good[0]), (0, "notify", good[0])]))
+            if not thorough:
                 g = good[0]
                 for h1, h2 in (("on_bar", "on_bar"), ("after_bar", "before_bar"), ("trigger", "after_bar"), ("initialize", "on_bar"), ("trigger", "trigger")):
                     b1 = -1 if h1 == "initialize" else 0
@@ -366,8 +376,8 @@ def work(args):
 
 def main(run: Run):
     cs = run.rotate(cases(run.thorough))
-    heavy = [c for c in cs if c[0] == "deribit+uni"]
-    light = [c for c in cs if c[0] != "deribit+uni"]
+    heavy = [c for c in cs if c[0] in ("deribit+uni", "deribit(many)+uni")]
+    light = [c for c in cs if c[0] not in ("deribit+uni", "deribit(many)+uni")]
     jobs = [(run.seed, ch) for ch in chunks(light, 48)] + [(run.seed, [c]) for c in heavy]
     for r in pmap(work, jobs):
         run.merge(r)
